@@ -47,6 +47,7 @@ type hsParty struct {
 	AppGot []byte
 	AppErr error
 	Resumed bool
+	Panic   string
 }
 
 type hsOpts struct {
@@ -114,10 +115,18 @@ func hsRun(o hsOpts) *hsResult {
 	ctx := context.Background()
 	var wg sync.WaitGroup
 	wg.Add(2)
+	guard := func(p *hsParty, e *netsim.End) {
+		if x := recover(); x != nil {
+			p.Panic = fmt.Sprint(x)
+			p.Err = fmt.Errorf("PANIC in endpoint: %v", x)
+			e.Close()
+		}
+	}
 	go func() { // client
 		defer wg.Done()
 		defer w.Done()
 		p := &r.C
+		defer guard(p, ce)
 		if o.ClientScript != nil {
 			p.Err = o.ClientScript(ce)
 			if p.Err != nil {
@@ -154,6 +163,7 @@ func hsRun(o hsOpts) *hsResult {
 		defer wg.Done()
 		defer w.Done()
 		p := &r.S
+		defer guard(p, se)
 		if o.ServerScript != nil {
 			p.Err = o.ServerScript(se)
 			if p.Err != nil {
